@@ -115,14 +115,13 @@ Definition take_last {A} (l : list A) : option (list A * A) :=
   match rev l with x :: r => Some (rev r, x) | [] => None end.
 
 Definition run (op : string) (args : list string) : string :=
-  match op with
-  | "xprv.from_seed" =>
+  if String.eqb op "xprv.from_seed" then
       match args with
       | [s] => match expand s with
                | Some seed => out3 (show_o show_xprv (xprv_from_seed E seed)) (show_s show_sxprv (master seed)) "-"
                | None => "BADARG" end
       | _ => "BADARG" end
-  | "xprv.seed_path" =>
+  else if String.eqb op "xprv.seed_path" then
       match args with
       | [s; p] => match expand s, expand p with
                   | Some seed, Some pb =>
@@ -130,7 +129,7 @@ Definition run (op : string) (args : list string) : string :=
                            (spec_path_priv (master seed) (text_of pb)) "-"
                   | _, _ => "BADARG" end
       | _ => "BADARG" end
-  | "xpub.seed_path" =>
+  else if String.eqb op "xpub.seed_path" then
       match args with
       | [s; p] => match expand s, expand p with
                   | Some seed, Some pb =>
@@ -138,18 +137,18 @@ Definition run (op : string) (args : list string) : string :=
                            (spec_path_pub (option_map (neuter E) (master seed)) (text_of pb)) "-"
                   | _, _ => "BADARG" end
       | _ => "BADARG" end
-  | "xprv.from_random" | "xpub.from_random" =>
+  else if String.eqb op "xprv.from_random" || String.eqb op "xpub.from_random" then
       (* behavioural: depth;index;fingerprint of a fresh key; 1 iff its string reads back to the same fields;
          1 iff two calls give different keys *)
       match args with [] => out3 "OK:0;0;00000000;1;1" "OK:0;0;00000000;1;1" "-" | _ => "BADARG" end
-  | "xpub.from_seed" =>
+  else if String.eqb op "xpub.from_seed" then
       match args with
       | [s] => match expand s with
                | Some seed => out3 (show_o show_xpub (xpub_from_seed E seed))
                                    (show_s show_sxpub (option_map (neuter E) (master seed))) "-"
                | None => "BADARG" end
       | _ => "BADARG" end
-  | "xprv.string_derive" =>
+  else if String.eqb op "xprv.string_derive" then
       match args with
       | [s; i] => match expand s, N_of_dec i with
                   | Some sb, Some ix =>
@@ -159,7 +158,7 @@ Definition run (op : string) (args : list string) : string :=
                            (show_s show_sxprv (match parse_priv str with Some x => child_priv E x ix | None => None end)) "-"
                   | _, _ => "BADARG" end
       | _ => "BADARG" end
-  | "xpub.string_derive" =>
+  else if String.eqb op "xpub.string_derive" then
       match args with
       | [s; i] => match expand s, N_of_dec i with
                   | Some sb, Some ix =>
@@ -169,21 +168,64 @@ Definition run (op : string) (args : list string) : string :=
                            (show_s show_sxpub (match parse_pub E str with Some x => child_pub E x ix | None => None end)) "-"
                   | _, _ => "BADARG" end
       | _ => "BADARG" end
-  | "xprv.from_string" =>
+  else if String.eqb op "xprv.history" then
+      (* one object, several calls: path A, path B, path A again, (child 1 of the object) . path A, the object itself afterwards *)
+      match rev args with
+      | pb :: pa :: ra =>
+          match arg_xprv (rev ra), expand pa, expand pb with
+          | PGood (x, sx, std), Some a, Some b =>
+              let st (r : outcome xprv) := match r with Ok y => xprv_to_string y | Err => "ERR" | Panic => "PANIC" end in
+              let ss (r : option sxprv) := match r with Some y => serialize_priv y | None => "ERR" end in
+              let sp (y : sxprv) (p : list ascii) := match std_path p with Some idx => descend_priv E y idx | None => None end in
+              out3 ("OK:" +++ st (xprv_derive_path E x (text_of a)) +++ ";" +++ st (xprv_derive_path E x (text_of b)) +++ ";"
+                    +++ st (xprv_derive_path E x (text_of a)) +++ ";"
+                    +++ st (do y <- xprv_derive E x 1; xprv_derive_path E y (text_of a)) +++ ";" +++ xprv_to_string x)
+                   (match std, std_path (text_of a), std_path (text_of b) with
+                    | true, Some (_ :: _), Some (_ :: _) =>
+                        "OK:" +++ ss (sp sx (text_of a)) +++ ";" +++ ss (sp sx (text_of b)) +++ ";" +++ ss (sp sx (text_of a)) +++ ";"
+                        +++ ss (match child_priv E sx 1 with Some y => sp y (text_of a) | None => None end) +++ ";" +++ serialize_priv sx
+                    | _, _, _ => "-"
+                    end) "-"
+          | PInvalid, _, _ => "ERR|-|-"
+          | _, _, _ => "BADARG"
+          end
+      | _ => "BADARG" end
+  else if String.eqb op "xpub.history" then
+      match rev args with
+      | pb :: pa :: ra =>
+          match arg_xpub (rev ra), expand pa, expand pb with
+          | PGood (x, sx), Some a, Some b =>
+              let st (r : outcome xpub) := match r with Ok y => xpub_to_string y | Err => "ERR" | Panic => "PANIC" end in
+              let ss (r : option (sxpub E)) := match r with Some y => serialize_pub E y | None => "ERR" end in
+              let sp (y : sxpub E) (p : list ascii) := match std_path p with Some idx => descend_pub E y idx | None => None end in
+              out3 ("OK:" +++ st (xpub_derive_path E x (text_of a)) +++ ";" +++ st (xpub_derive_path E x (text_of b)) +++ ";"
+                    +++ st (xpub_derive_path E x (text_of a)) +++ ";"
+                    +++ st (do y <- xpub_derive E x 1; xpub_derive_path E y (text_of a)) +++ ";" +++ xpub_to_string x)
+                   (match sx, std_path (text_of a), std_path (text_of b) with
+                    | Some y0, Some (_ :: _), Some (_ :: _) =>
+                        "OK:" +++ ss (sp y0 (text_of a)) +++ ";" +++ ss (sp y0 (text_of b)) +++ ";" +++ ss (sp y0 (text_of a)) +++ ";"
+                        +++ ss (match child_pub E y0 1 with Some y => sp y (text_of a) | None => None end) +++ ";" +++ serialize_pub E y0
+                    | _, _, _ => "-"
+                    end) "-"
+          | PInvalid, _, _ => "ERR|-|-"
+          | _, _, _ => "BADARG"
+          end
+      | _ => "BADARG" end
+  else if String.eqb op "xprv.from_string" then
       match args with
       | [s] => match expand s with
                | Some sb => let str := string_of_bytes sb in
                             out3 (show_o show_xprv (xprv_from_string E str)) (show_s show_sxprv (parse_priv str)) "-"
                | None => "BADARG" end
       | _ => "BADARG" end
-  | "xpub.from_string" =>
+  else if String.eqb op "xpub.from_string" then
       match args with
       | [s] => match expand s with
                | Some sb => let str := string_of_bytes sb in
                             out3 (show_o show_xpub (xpub_from_string E str)) (show_s show_sxpub (parse_pub E str)) "-"
                | None => "BADARG" end
       | _ => "BADARG" end
-  | "xprv.to_string" =>
+  else if String.eqb op "xprv.to_string" then
       (* to_string never looks at the public key: the record is built without computing it *)
       match args with
       | [k; comp; cc; d; i; fp] =>
@@ -202,72 +244,65 @@ Definition run (op : string) (args : list string) : string :=
           | _, _, _, _, _, _ => "BADARG"
           end
       | _ => "BADARG" end
-  | "xpub.to_string" =>
+  else if String.eqb op "xpub.to_string" then
       match arg_xpub args with
       | PBad => "BADARG" | PInvalid => "ERR|-|-"
       | PGood (x, sx) => out3 ("OK:" +++ xpub_to_string x)
                               (match sx with Some y => "OK:" +++ serialize_pub E y | None => "-" end) "-"
       end
-  | "xpub.from_xprv" =>
+  else if String.eqb op "xpub.from_xprv" then
       match arg_xprv args with
       | PBad => "BADARG" | PInvalid => "ERR|-|-"
       | PGood (x, sx, std) => out3 (show_xpub (xpub_from_xprv x)) (if std then show_sxpub (neuter E sx) else "-") "-"
       end
-  | "xprv.derive" | "xprv.neuter_derive" | "xpub.from_xprv_derive" | "xprv.derive_path" =>
+  else if String.eqb op "xprv.derive" || String.eqb op "xprv.neuter_derive" || String.eqb op "xpub.from_xprv_derive" || String.eqb op "xprv.derive_path" then
       match take_last args with
       | Some (pa, last) =>
           match arg_xprv pa with
           | PBad => "BADARG" | PInvalid => "ERR|-|-"
           | PGood (x, sx, std) =>
-              match op with
-              | "xprv.derive_path" =>
+              if String.eqb op "xprv.derive_path" then
                   match expand last with
                   | Some pb => out3 (show_o show_xprv (xprv_derive_path E x (text_of pb)))
                                     (if std then spec_path_priv (Some sx) (text_of pb) else "-") "-"
                   | None => "BADARG" end
-              | _ =>
+              else
                   match N_of_dec last with
                   | Some i =>
                       if (4294967296 <=? i)%N then "BADARG"
-                      else match op with
-                           | "xprv.derive" =>
+                      else if String.eqb op "xprv.derive" then
                                out3 (show_o show_xprv (xprv_derive E x i))
                                     (if std then show_s show_sxprv (child_priv E sx i) else "-") "-"
-                           | "xpub.from_xprv_derive" =>
+                      else if String.eqb op "xpub.from_xprv_derive" then
                                out3 (show_o show_xpub (xpub_derive E (xpub_from_xprv x) i))
                                     (if std then show_s show_sxpub (child_pub E (neuter E sx) i) else "-") "-"
-                           | _ =>
+                      else
                                out3 (show_o show_xpub (omap xpub_from_xprv (xprv_derive E x i)))
                                     (if std then
                                        (if hardened i then show_s show_sxpub (option_map (neuter E) (child_priv E sx i))
                                         else show_s show_sxpub (child_pub E (neuter E sx) i))
                                      else "-") "-"
-                           end
                   | None => "BADARG" end
-              end
           end
       | None => "BADARG" end
-  | "xpub.derive" | "xpub.derive_path" =>
+  else if String.eqb op "xpub.derive" || String.eqb op "xpub.derive_path" then
       match take_last args with
       | Some (pa, last) =>
           match arg_xpub pa with
           | PBad => "BADARG" | PInvalid => "ERR|-|-"
           | PGood (x, sx) =>
-              match op with
-              | "xpub.derive_path" =>
+              if String.eqb op "xpub.derive_path" then
                   match expand last with
                   | Some pb => out3 (show_o show_xpub (xpub_derive_path E x (text_of pb)))
                                     (match sx with Some y => spec_path_pub (Some y) (text_of pb) | None => "-" end) "-"
                   | None => "BADARG" end
-              | _ =>
+              else
                   match N_of_dec last with
                   | Some i =>
                       if (4294967296 <=? i)%N then "BADARG"
                       else out3 (show_o show_xpub (xpub_derive E x i))
                                 (match sx with Some y => show_s show_sxpub (child_pub E y i) | None => "-" end) "-"
                   | None => "BADARG" end
-              end
           end
       | None => "BADARG" end
-  | _ => "BADOP"
-  end.
+  else "BADOP".
